@@ -86,8 +86,21 @@ def paintNote (im : List (Nat × Nat)) (m : Mapping) (f : Frame) (note : Nat) (c
     | some i => setAt f i c
     | none => f) f
 
-/-- `note - byte(offset)` in `uint8` -/
-def baseOf (note : Nat) (offset : Int) : Nat := u8 ((note : Int) - (u8 offset : Int))
+/-- the key note that sounds `note` at transposition `offset`: `int(note) - offset` … -/
+def baseI (note : Nat) (offset : Int) : Int := (note : Int) - offset
+
+/-- … which is looked at only when it is a MIDI note (`if base < 0 || base > 127 { continue }`) -/
+def baseOk (note : Nat) (offset : Int) : Bool := decide (0 ≤ baseI note offset) && decide (baseI note offset ≤ 127)
+
+def baseOf (note : Nat) (offset : Int) : Nat := (baseI note offset).toNat
+
+/-- the MIDI-input notes of channel `ch` that some key could sound at this transposition -/
+def extOn (d : Dev) (ch : Nat) (offset : Int) : List (Nat × Nat) :=
+  (d.ext.filter (fun p => p.1 = ch)).filter (fun p => baseOk p.2 offset)
+
+/-- the device's own sounding notes that some key could sound at this transposition -/
+def ownOn (d : Dev) (offset : Int) : List (Code × (Nat × Nat)) :=
+  d.noteTr.filter (fun p => baseOk p.2.1 offset)
 
 /-- the paints of the action keys, in the painting order of the source (later entries win): panic red; octave and semitone
     keys dim, brighter at ±1, brightest beyond; mapping keys bright, dim at the ends; channel keys in the channel colour,
@@ -142,8 +155,8 @@ def frameExt (d : Dev) (leds : List String) (m : Mapping) (f : Frame) : Frame :=
   let im := indexMap leds
   let offset : Int := d.semitone + d.octave * 12
   let f := (List.range 16).reverse.foldl (fun f ch =>
-    (d.ext.filter (fun p => p.1 = ch)).foldl (fun f p => paintNote im m f (baseOf p.2 offset) (chanColor ch)) f) f
-  (d.ext.filter (fun p => p.1 = d.channel)).foldl
+    (extOn d ch offset).foldl (fun f p => paintNote im m f (baseOf p.2 offset) (chanColor ch)) f) f
+  (extOn d d.channel offset).foldl
     (fun f p => paintNote im m f (baseOf p.2 offset) d.cfg.colors.activeExternal) f
 
 /-- the frame for the current state: base, MIDI-input highlights, then the device's own notes in the active colour -/
@@ -152,7 +165,7 @@ def frame (checked : Bool) (d : Dev) (devName : String) (leds : List String) (sh
   | none => .panic
   | some m =>
     let offset : Int := d.semitone + d.octave * 12
-    d.noteTr.foldl (fun f p => paintNote (indexMap leds) m f (baseOf p.2.1 offset) d.cfg.colors.active)
+    (ownOn d offset).foldl (fun f p => paintNote (indexMap leds) m f (baseOf p.2.1 offset) d.cfg.colors.active)
       (frameExt d leds m (frameBase checked d devName leds shifted m))
 
 def rgbTok (c : RGB) : String :=
